@@ -41,6 +41,8 @@ Pipe(h, i) ==
       okval  |-> IF fbs # <<>> THEN (IF fbs[1].out = "ok" THEN fbs[1].val ELSE -1)
                  ELSE IF outs # <<>> /\ Last(outs).out = "ok" THEN Last(outs).val ELSE -1,
       fberr  |-> IF fbs # <<>> /\ fbs[1].out = "err" THEN fbs[1].err ELSE 0,
+      \* the exec function returned an error Result with a nil error: that Result is the item's outcome
+      eres   |-> IF fbs = <<>> /\ outs # <<>> /\ Last(outs).out = "eres" THEN Last(outs).err ELSE 0,
       allfailed |-> outs # <<>> /\ \A k \in 1..Len(outs) : outs[k].out = "err",
       endpos |-> IF pos = <<>> THEN 0 ELSE Last(pos)]
 
@@ -106,6 +108,7 @@ C06_Clauses(cfg, D) ==
                      LET p == D.pipes[i] s == Slot(D, i) IN
                      /\ (p.okval >= 0 => ~s.iserr /\ s.tok = p.okval)
                      /\ (p.fberr # 0 => s.iserr /\ p.fberr \in Range(s.errs))
+                     /\ (p.eres # 0 => s.iserr /\ p.eres \in Range(s.errs))
                      /\ (p.fbs = <<>> /\ p.allfailed => s.iserr)
                      /\ (p.fbs = <<>> /\ p.allfailed /\ Len(p.outs) = N(cfg) /\ ~cfg.fb
                             => Last(p.outs).err \in Range(s.errs)),
@@ -147,6 +150,7 @@ C07_Clauses(cfg, D) ==
                         LET p == D.pipes[i] s == Slot(D, i) IN
                         /\ (p.okval >= 0 => ~s.iserr /\ s.tok = p.okval)
                         /\ (p.fberr # 0 => s.iserr /\ p.fberr \in Range(s.errs))
+                        /\ (p.eres # 0 => s.iserr /\ p.eres \in Range(s.errs))
                         /\ (p.fbs = <<>> /\ p.allfailed => s.iserr /\ Last(p.outs).err \in Range(s.errs))
   ]
 C07_OK(cfg, h) == All(C07_Clauses(cfg, Digest(cfg, h)))
@@ -252,6 +256,11 @@ C18B_Clauses(cfg, D) ==
    routed    |-> \A k \in 1..Len(D.h) : D.h[k].ev = "routed" => D.h[k].ok
   ]
 C18B_OK(cfg, h) == All(C18B_Clauses(cfg, Digest(cfg, h)))
+
+\* the batch part of C17: the item reaches the exec function unchanged; what the exec function returns - a value or an
+\* error Result - is what post finds in the item's slot, never wrapped a second time and never stripped
+C17B_Clauses(cfg, D) ==
+  LET c == C06_Clauses(cfg, D) IN [itemToExec |-> c.itemArg, execToSlot |-> c.slotOutcome /\ c.noForeign]
 
 \* the batch part of C04: prep and post errors are returned transparently, item errors stay in slots
 C04B_Clauses(cfg, D) ==
